@@ -11,8 +11,11 @@ import (
 	"fmt"
 	"math/big"
 	"math/rand"
+	"time"
 
 	"github.com/shopspring/decimal"
+
+	"github.com/smartcontractkit/libocr/commontypes"
 
 	"github.com/smartcontractkit/libocr/offchainreporting2plus/ocr3types"
 	"github.com/smartcontractkit/libocr/offchainreporting2plus/types"
@@ -62,6 +65,10 @@ type mobvIn struct {
 	Blocks  []mblk  `json:"blocks,omitempty"`
 	// fee
 	Price string `json:"price,omitempty"`
+	// round: correct nodes (each with its own scripted data source) and faulty senders, then the real Report
+	F      int       `json:"f,omitempty"`
+	Nodes  []mobvIn  `json:"nodes,omitempty"`  // correct nodes (Kind "obs" inputs)
+	Faulty []mercObs `json:"faulty,omitempty"` // hand-made or raw observations of the other senders
 }
 
 var errDS = errors.New("scripted data source failure")
@@ -221,6 +228,9 @@ func mobvCase(in mobvIn, tags ...string) caseRec {
 		}
 		return caseRec{Input: in, Output: out, Tags: append(tags, "fee"),
 			Coq: fmt.Sprintf("MFee %s %s %s", coqZ(bigOf(in.Price)), base, term)}
+	}
+	if in.Kind == "round" {
+		return mobvRound(in, base, tags...)
 	}
 	var asked bool
 	p, err := newMercPluginDS(in, &asked)
@@ -415,6 +425,10 @@ func directedMobv() []mobvIn {
 	for _, c := range [][2]string{{"0.5e-34", "1"}, {"1e-34", "2"}, {"1e-34", "3"}, {"-1e-34", "2"}, {"1e-34", "-2"}, {"3e-34", "2"}, {"1e-33", "3"}, {"0.000000000000000049", "100000000000000000000"}} {
 		out = append(out, mobvIn{Kind: "fee", BaseFee: c[0], Price: c[1]})
 	}
+	// whole rounds, every version, new feeds and running feeds
+	for k := int64(0); k < 24; k++ {
+		out = append(out, genMobvRound(rand.New(rand.NewSource(1000+k))))
+	}
 	// v1
 	h32 := make([]byte, 32)
 	h32[0] = 9
@@ -443,10 +457,114 @@ func cmdMercObserve(seed int64, n int, out, replay, tier string) {
 			cs = append(cs, mobvCase(d, "directed"))
 		}
 		for k := 0; k < n; k++ {
+			if k%8 == 7 {
+				cs = append(cs, mobvCase(genMobvRound(r), "random"))
+				continue
+			}
 			cs = append(cs, mobvCase(genMobv(r), "random"))
 		}
 	}
 	if err := writeCases(out, "mercobserve", seed, mobvHeader, "mobv_case", "mobv_eval", cs); err != nil {
 		fatal(err)
 	}
+}
+
+// ---- whole rounds on the implementation: Observation of every correct node, then Report over what they sent plus the
+// faulty senders' bytes. Nominal rounds (every correct data source returns valid, mutually consistent values): the real
+// plugin must report, with the benchmark between two correct data-source values and the timestamp between the harness's
+// clock readings around the calls. ----
+func mobvRound(in mobvIn, base string, tags ...string) caseRec {
+	t0 := time.Now().Unix()
+	var aos []types.AttributedObservation
+	var correct []string
+	for i, nd := range in.Nodes {
+		nd.Ver, nd.BaseFee, nd.PrevNil, nd.Kind = in.Ver, in.BaseFee, true, "obs"
+		var asked bool
+		p, err := newMercPluginDS(nd, &asked)
+		if err != nil {
+			fatal(err)
+		}
+		var ob types.Observation
+		e, panicked, _ := protect(func() error {
+			var e2 error
+			ob, e2 = p.Observation(context.Background(), types.ReportTimestamp{}, nil)
+			return e2
+		})
+		if e == nil && !panicked {
+			aos = append(aos, types.AttributedObservation{Observation: ob, Observer: commontypes.OracleID(i)})
+		}
+		bm := "None"
+		if nd.Bm.Val != nil {
+			bm = "(Some " + coqZ(bigOf(*nd.Bm.Val)) + ")"
+		}
+		correct = append(correct, bm)
+	}
+	for j, fo := range in.Faulty {
+		aos = append(aos, types.AttributedObservation{Observation: fo.bytes(in.Ver), Observer: commontypes.OracleID(len(in.Nodes) + j)})
+	}
+	// faulty senders first in the list now and then: the order must not matter
+	if len(in.Faulty) > 0 && len(in.Nodes)%2 == 0 {
+		aos = append(aos[len(in.Nodes):], aos[:len(in.Nodes)]...)
+	}
+	cfg := mercCfg{Ver: in.Ver, F: in.F, Min: "0", Max: pow2(100).String(), Window: 3600, MaxLen: 4096}
+	out, _ := runMercRound(cfg, "ok", nil, aos)
+	t1 := time.Now().Unix()
+	term := "MRNone"
+	switch out.Kind {
+	case "report":
+		term = fmt.Sprintf("(MRReport %s %d)", z(out.Fields.Bm), out.Fields.Ts)
+	case "decline":
+		term = "MRDecline"
+	case "err":
+		term = "MRErr"
+	case "panic":
+		term = "MRPanic"
+	}
+	return caseRec{Input: in, Output: out, Tags: append(tags, "round", fmt.Sprintf("v%d", in.Ver)),
+		Coq: fmt.Sprintf("MRound %d %d %s %d %s %d %d", in.Ver, in.F, coqList(correct), len(in.Faulty), term, t0, t1)}
+}
+
+func genMobvRound(r *rand.Rand) mobvIn {
+	f := 1 + r.Intn(2)
+	n := 3*f + 1
+	nf := r.Intn(f + 1)
+	in := mobvIn{Kind: "round", Ver: 1 + r.Intn(4), F: f, BaseFee: []string{"0.001", "1", "0.5", "0"}[r.Intn(4)]}
+	basePrice := int64(1000 + r.Intn(1000000))
+	newFeed := r.Intn(2) == 0
+	h := make([]byte, 32)
+	r.Read(h)
+	var blocks []mblk
+	for k := 0; k < 3; k++ {
+		bh := make([]byte, 32)
+		r.Read(bh)
+		blocks = append(blocks, mblk{Num: int64(100 - k), Hash: bh, Ts: uint64(1000 - k)})
+	}
+	blocks[0].Hash = h
+	for i := 0; i < n-nf; i++ {
+		bm := basePrice + int64(r.Intn(21)) - 10
+		s := func(v int64) dsBig { x := fmt.Sprint(v); return dsBig{&x} }
+		i64 := func(v int64) dsInt { return dsInt{&v} }
+		nd := mobvIn{Bm: s(bm), Bid: s(bm - int64(r.Intn(5))), Ask: s(bm + int64(r.Intn(5))), Link: s(7000000000000000000), Native: s(2000000000000000000), Status: i64(2)}
+		if newFeed {
+			nd.Mf = i64(-1)
+		} else if in.Ver == 1 {
+			nd.Mf = i64(50)
+		} else {
+			nd.Mf = i64(1000)
+		}
+		if in.Ver == 1 {
+			nd.CurNum, nd.CurHash, nd.CurTs, nd.Blocks = i64(100), dsBytes{true, h}, i64(1000), blocks
+		}
+		in.Nodes = append(in.Nodes, nd)
+	}
+	for j := 0; j < nf; j++ {
+		big := new(big.Int).Exp(big.NewInt(10), big.NewInt(30), nil)
+		fo := mercObs{Ts: uint32(r.Uint32()), PV: true, Bm: i192(big), Bid: i192(big), Ask: i192(big), MfV: true, Mf: int64(r.Intn(100)), LV: true, Link: i192(big), NV: true, Native: i192(big), SV: true, Status: 0,
+			CurV: true, Cur: mblk{Num: 100, Hash: h, Ts: 1000}, Blocks: blocks}
+		if r.Intn(3) == 0 {
+			fo = mercObs{Raw: []byte{0xff, 0x01, 0x02}}
+		}
+		in.Faulty = append(in.Faulty, fo)
+	}
+	return in
 }
